@@ -86,26 +86,30 @@ Print Assumptions snapshot_between_chunks_refuted.
 
     [snapshot_matches_position]: the content of every snapshot read equals the
     restore of the level-0 chain at the position it advertises, for histories
-    satisfying [steps_snap], i.e. three side conditions at the two snapshot
-    steps, each REFUTED below when dropped:
+    satisfying [steps_snap].  For /repo HEAD ([LsSnapPos true], [LsSnapRead
+    true]) that is two side conditions at the two snapshot steps, each REFUTED
+    below when dropped:
     - the advertised position lies in the live WAL generation and no generation
-      was lost under it ([snapshot_position_not_live_refuted]; before
-      snapshotWALEndOffset compared salts also F9b,
+      was lost under it ([snapshot_position_not_live_refuted]: a position in
+      another generation reads the database file only, which is wrong when the
+      file is ahead; before snapshotWALEndOffset compared salts also F9b,
       [snapshot_after_failed_bump_refuted]);
-    - no WAL restart between capturing the position and reading
-      ([snapshot_restart_between_refuted]);
     - the database file is not backfilled beyond the position (F9,
-      [snapshot_between_chunks_after_offline_backfill_refuted]). *)
+      [snapshot_between_chunks_after_offline_backfill_refuted]).
+    A WAL restart between capturing the position and the end of the read makes
+    the read fail (482a715, a637c7e: no snapshot is produced); for the reader
+    before those commits ([LsSnapRead false]) it is a third side condition and
+    F19 ([snapshot_restart_between_refuted]). *)
 From Coq Require Import Arith.
 From LS Require Db.Machine Db.MachineSnapProofs Db.MachineProofs.
 
 Theorem snapshot_matches_position :
-  forall (data : Type) (zero : data) (lock : N) (midcheck postcopy recheck freshrule : bool)
+  forall (data : Type) (zero : data) (lock : N) (midcheck postcopy recheck freshrule reachrule : bool)
          (s0 : Machine.state data) (ls : list (Machine.label data)) (s : Machine.state data),
   Machine.init_ok data zero lock s0 ->
-  Machine.run data lock midcheck postcopy recheck freshrule s0 ls = Some s ->
-  Machine.steps_ok data lock midcheck postcopy recheck freshrule s0 ls ->
-  Machine.steps_snap data lock midcheck postcopy recheck freshrule s0 ls ->
+  Machine.run data lock midcheck postcopy recheck freshrule reachrule s0 ls = Some s ->
+  Machine.steps_ok data lock midcheck postcopy recheck freshrule reachrule s0 ls ->
+  Machine.steps_snap data lock midcheck postcopy recheck freshrule reachrule s0 ls ->
   forall p im, In (p, im) (Machine.snaps data s) ->
   Image.img_eq data (Image.restore data zero lock (firstn p (Machine.l0 data s))) im.
 Proof. exact MachineSnapProofs.snapshot_matches_position_lemma. Qed.
@@ -113,8 +117,8 @@ Print Assumptions snapshot_matches_position.
 
 Theorem snapshot_position_not_live_refuted :
   exists (s0 : Machine.state N) ls s p im,
-    Machine.init_ok N 0%N 1000%N s0 /\ Machine.run N 1000%N true true true true s0 ls = Some s /\
-    Machine.steps_ok N 1000%N true true true true s0 ls /\
+    Machine.init_ok N 0%N 1000%N s0 /\ Machine.run N 1000%N true true true true true s0 ls = Some s /\
+    Machine.steps_ok N 1000%N true true true true true s0 ls /\
     In (p, im) (Machine.snaps N s) /\
     ~ Image.img_eq N (Image.restore N 0%N 1000%N (firstn p (Machine.l0 N s))) im.
 Proof. exact MachineSnapProofs.snapshot_position_not_live_refuted. Qed.
@@ -122,8 +126,8 @@ Print Assumptions snapshot_position_not_live_refuted.
 
 Theorem snapshot_restart_between_refuted :
   exists (s0 : Machine.state N) ls s p im,
-    Machine.init_ok N 0%N 1000%N s0 /\ Machine.run N 1000%N true true true true s0 ls = Some s /\
-    Machine.steps_ok N 1000%N true true true true s0 ls /\
+    Machine.init_ok N 0%N 1000%N s0 /\ Machine.run N 1000%N true true true true true s0 ls = Some s /\
+    Machine.steps_ok N 1000%N true true true true true s0 ls /\
     In (p, im) (Machine.snaps N s) /\
     ~ Image.img_eq N (Image.restore N 0%N 1000%N (firstn p (Machine.l0 N s))) im.
 Proof. exact MachineSnapProofs.snapshot_restart_between_refuted. Qed.
@@ -132,8 +136,8 @@ Print Assumptions snapshot_restart_between_refuted.
 (** F9 *)
 Theorem snapshot_between_chunks_after_offline_backfill_refuted :
   exists (s0 : Machine.state N) ls s p im,
-    Machine.init_ok N 0%N 1000%N s0 /\ Machine.run N 1000%N true true true true s0 ls = Some s /\
-    Machine.steps_ok N 1000%N true true true true s0 ls /\
+    Machine.init_ok N 0%N 1000%N s0 /\ Machine.run N 1000%N true true true true true s0 ls = Some s /\
+    Machine.steps_ok N 1000%N true true true true true s0 ls /\
     In (p, im) (Machine.snaps N s) /\
     ~ Image.img_eq N (Image.restore N 0%N 1000%N (firstn p (Machine.l0 N s))) im.
 Proof. exact MachineSnapProofs.snapshot_between_chunks_after_offline_backfill_refuted. Qed.
@@ -142,8 +146,8 @@ Print Assumptions snapshot_between_chunks_after_offline_backfill_refuted.
 (** F9b (snapshotWALEndOffset before it compared salts: [LsSnapPos false]) *)
 Theorem snapshot_after_failed_bump_refuted :
   exists (s0 : Machine.state N) ls s p im,
-    Machine.init_ok N 0%N 1000%N s0 /\ Machine.run N 1000%N true true true true s0 ls = Some s /\
-    Machine.steps_ok N 1000%N true true true true s0 ls /\
+    Machine.init_ok N 0%N 1000%N s0 /\ Machine.run N 1000%N true true true true true s0 ls = Some s /\
+    Machine.steps_ok N 1000%N true true true true true s0 ls /\
     In (p, im) (Machine.snaps N s) /\
     ~ Image.img_eq N (Image.restore N 0%N 1000%N (firstn p (Machine.l0 N s))) im.
 Proof. exact MachineSnapProofs.snapshot_after_failed_bump_refuted. Qed.
@@ -152,7 +156,7 @@ Print Assumptions snapshot_after_failed_bump_refuted.
 (** non-vacuity: [MachineSnapProofs.snap_run] - a snapshot whose read comes after
     an application commit, a partial application checkpoint and a further sync *)
 Example snapshot_example :
-  forall s, Machine.run N 1000%N true true true true MachineProofs.ex_init MachineSnapProofs.snap_steps = Some s ->
+  forall s, Machine.run N 1000%N true true true true true MachineProofs.ex_init MachineSnapProofs.snap_steps = Some s ->
   forall p im, In (p, im) (Machine.snaps N s) ->
   Image.img_eq N (Image.restore N 0%N 1000%N (firstn p (Machine.l0 N s))) im.
 Proof.
